@@ -341,6 +341,14 @@ def run_config(chk, driver, rng, c, stream, batch, p, assumed, oracle=True):
                 chk.extra.setdefault("parser_assumption_mismatches", [])
                 if len(chk.extra["parser_assumption_mismatches"]) < 5:
                     chk.extra["parser_assumption_mismatches"].append({"text": text, "parser": real, "assumed": want})
+                # the INI parser is bumpver's own subclass: when IT no longer hands over what the model assumes, the property is
+                # still judged end to end on this format (the `toml` library's quirks on odd strings are not bumpver's)
+                if oracle and kind == "cfg":
+                    r = impl.cfg_init_in(p.dir)
+                    code, out, exc = sandbox.run_cli(["show", "--no-fetch"], p.dir)
+                    own = [ln for ln in text.splitlines() if ln.startswith("current_version")]
+                    results.append({"format": header + " in " + fname, "file": fname, "text": text, "init": r, "show": [code, out, exc], "own_line": own[0] if own else None,
+                                    "explicit_self": any(f["name"] == fname for f in cf["files"])})
                 continue
             chk.count("parser_assumption_ok:" + kind)
             # (b) correspondence on the real raw data
